@@ -707,7 +707,12 @@ func (x *Exec) VerifyFunc(fn *ssa.Function, spec *FuncSpec) (obls []*Obligation,
 				err = fmt.Errorf("%s: contract is ill-sorted: %s", shortFuncName(fn), truncate(msg, 300))
 				return
 			}
-			panic(r)
+			if os.Getenv("GOCV_TRACE") != "" {
+				panic(r)
+			}
+			// a failure of the generator itself on this function: reported like an unsupported construct (the function is
+			// refused, which the check reports under the obligation <function>#generated) instead of ending the whole run
+			err = fmt.Errorf("%s: generator failure: %v", shortFuncName(fn), r)
 		}
 	}()
 	vc := &VC{fn: fn, spec: spec, initHeap: map[string]*Term{}, checkFrame: true}
